@@ -539,6 +539,10 @@ func (f *Formatter) formatErrorStatement(stmt *ast.ErrorStatement) string {
 
 	buf.Reset()
 	buf.WriteString("error")
+	// "error <comment>;" without code and argument
+	if v := f.formatComment(stmt.Infix, "", 0); v != "" {
+		buf.WriteString(" " + v)
+	}
 	// status code is arbitrary ("error;" is valid VCL)
 	if stmt.Code != nil {
 		buf.WriteString(" " + f.formatExpression(stmt.Code).String())
